@@ -656,7 +656,7 @@ def pretty_print_cell(i, cell, prefix="", force_header=False, config=DefaultConf
         c()
 
     id = cell.get("id")
-    if id and config.details:
+    if id and config.id:
         # Write cell ID if there
         c()
         pretty_print_item("id", id, key_prefix, config)
